@@ -136,6 +136,27 @@ def run(tier):
         for name in ("u10", "friction_velocity", "direction"):
             if not np.allclose(o2[name].values, o1[name].values, rtol=1e-12, atol=1e-12):
                 chk.violation("2d-vs-1d:%s" % name, "a 2D spectrum gives a different %s than its 1D reduction" % name, ctx)
+    # ... also for irregular spectra on a grid that reaches beyond the default fmax (0.5 Hz), both methods, batches
+    for j in range(10 if quick else 200):
+        nf2, nd = rng.randint(30, 60), 12
+        f2 = np.linspace(0.03, rng.choice([0.49, 0.8, 1.0]), nf2)
+        dirs = np.arange(nd) * 30.0 + rng.choice([0.0, 7.5])
+        B = rng.choice([1, 3])
+        D = np.array([[[rng.uniform(0.1, 1.0) * (0.2 + math.exp(-(((d - 40.0 * (b + 1) - 200.0 * f2[i] + 180) % 360 - 180) / 40.0) ** 2)) * f2[i] ** -3.5
+                        for d in dirs] for i in range(nf2)] for b in range(B)]) * 1e-5
+        try:
+            s2 = create_2d_spectrum(f2, dirs, D, np.arange(B) * 3600, np.zeros(B), np.zeros(B), depth=np.full(B, np.inf))
+            s1 = s2.as_frequency_spectrum()
+            for method in ("peak", "mean"):
+                o2 = estimate_u10_from_spectrum(s2, method)
+                o1 = estimate_u10_from_spectrum(s1, method)
+                evals += 2
+                for name in ("u10", "friction_velocity", "direction"):
+                    if not np.allclose(o2[name].values, o1[name].values, rtol=1e-10, atol=1e-10):
+                        chk.violation("2d-vs-1d:irregular:%s:%s" % (method, name), "a 2D spectrum gives a different %s than its 1D reduction (%s method)" % (name, method),
+                                      {"frequency_grid_end": float(f2[-1]), "batch": B, "from_2d": o2[name].values.tolist(), "from_1d": o1[name].values.tolist()})
+        except Exception as ex:
+            chk.violation("raise:2d-vs-1d:%s" % type(ex).__name__, "estimate on an irregular 2D spectrum raised", {"error": str(ex)[:300]})
     # histories of one object (SpectrumSession.tla behaviours): the estimate after queries interleaved with in-place changes
     sessions = sc1.tlc_sessions(chk, quick, chk.seed)
 
